@@ -818,14 +818,12 @@ impl<'a> Parser<'a> {
         let after = self.check_for_close_paren(end)?;
         Ok((
             after,
-            if if_true == Expr::Empty && if_false == Expr::Empty {
-                inner_condition
-            } else {
-                Expr::Conditional {
-                    condition: Box::new(inner_condition),
-                    true_branch: Box::new(if_true),
-                    false_branch: Box::new(if_false),
-                }
+            // Note that two empty branches, as in `(?(1)|)`, are not the same as the bare test
+            // `(?(1))`: the former continues either way, the latter fails if the group is unset.
+            Expr::Conditional {
+                condition: Box::new(inner_condition),
+                true_branch: Box::new(if_true),
+                false_branch: Box::new(if_false),
             },
         ))
     }
